@@ -29,6 +29,10 @@ func runC10(c *Ctx) {
 	c10R3(c, "C10.R3")
 	c.importing = "C05"
 	c05R4(c, "C05.R4")
+	// "length is non-zero": nothing empty is ever handed to the record writer — the frame encoder refuses an empty
+	// payload before anything else
+	c.importing = "C04"
+	c04R6(c, "C04.R6")
 	c.importing = ""
 	c10R5(c, "C10.R5")
 }
